@@ -372,4 +372,381 @@ theorem maskValue_eq (m : MaskCfg) (value buf : Bytes) (nsub : Nat) (idx : Match
     simp only [List.append_nil, List.nil_append, replaceFrom] at this
     simp [he, e1, bind, Except.bind, sliceFrom_ok l1 u1, pure, Except.pure, maskedValue, this]
 
+
+/-! ### what the sections are, said without the algorithm -/
+
+/-- `r` lies inside `sec` -/
+def Within (r sec : Range) : Prop := sec.1 ≤ r.1 ∧ r.2 ≤ sec.2
+
+/-- `sec` is a union of ranges of `S`: it starts where one starts, ends where one ends, and every
+    position in it belongs to one -/
+def Tight (S : List Range) (sec : Range) : Prop :=
+  (∃ r ∈ S, r.1 = sec.1) ∧ (∃ r ∈ S, r.2 = sec.2) ∧ ∀ i : Int, sec.1 ≤ i → i < sec.2 → ∃ r ∈ S, r.1 ≤ i ∧ i < r.2
+
+theorem mergeGo_cover : ∀ (rest : List Range) (cur : Range),
+    (∀ r ∈ rest, cur.1 ≤ r.1) → rest.Pairwise (fun a b => a.1 ≤ b.1) →
+    ∀ r, (Within r cur ∨ r ∈ rest) → ∃ sec ∈ mergeGo cur rest, Within r sec
+  | [], cur, _, _, r, h => by
+    rcases h with h | h
+    · exact ⟨cur, by simp [mergeGo], h⟩
+    · simp at h
+  | s :: rest, cur, hc, hp, r, h => by
+    have hps := List.pairwise_cons.mp hp
+    have hs := hc s List.mem_cons_self
+    unfold mergeGo
+    split
+    · rename_i hlt
+      apply mergeGo_cover rest (cur.1, if s.2 > cur.2 then s.2 else cur.2)
+        (fun r' m => hc r' (List.mem_cons_of_mem _ m)) hps.2 r
+      rcases h with h | h
+      · left; refine ⟨h.1, ?_⟩; show r.2 ≤ (if s.2 > cur.2 then s.2 else cur.2); have := h.2; split <;> omega
+      · rcases List.mem_cons.mp h with rfl | h
+        · left; refine ⟨hs, ?_⟩; show r.2 ≤ (if r.2 > cur.2 then r.2 else cur.2); split <;> omega
+        · right; exact h
+    · rcases h with h | h
+      · exact ⟨cur, List.mem_cons_self, h⟩
+      · obtain ⟨sec, m, w⟩ := mergeGo_cover rest s hps.1 hps.2 r (by
+          rcases List.mem_cons.mp h with rfl | h
+          · left; exact ⟨Int.le_refl _, Int.le_refl _⟩
+          · right; exact h)
+        exact ⟨sec, List.mem_cons_of_mem _ m, w⟩
+
+theorem tight_self {S : List Range} {r : Range} (h : r ∈ S) : Tight S r :=
+  ⟨⟨r, h, rfl⟩, ⟨r, h, rfl⟩, fun i h1 h2 => ⟨r, h, h1, h2⟩⟩
+
+theorem mergeGo_tight (S : List Range) : ∀ (rest : List Range) (cur : Range),
+    Tight S cur → (∀ r ∈ rest, r ∈ S) →
+    ∀ sec ∈ mergeGo cur rest, Tight S sec
+  | [], cur, ht, _, sec, m => by
+    simp [mergeGo] at m; subst m; exact ht
+  | s :: rest, cur, ht, hr, sec, m => by
+    have hs := hr s List.mem_cons_self
+    unfold mergeGo at m
+    split at m
+    · rename_i hlt
+      refine mergeGo_tight S rest (cur.1, if s.2 > cur.2 then s.2 else cur.2) ?_
+        (fun r' m' => hr r' (List.mem_cons_of_mem _ m')) sec m
+      obtain ⟨t1, t2, t3⟩ := ht
+      refine ⟨t1, ?_, ?_⟩
+      · show ∃ r ∈ S, r.2 = (if s.2 > cur.2 then s.2 else cur.2)
+        split
+        · exact ⟨s, hs, rfl⟩
+        · exact t2
+      · intro i h1 h2
+        have h2' : i < (if s.2 > cur.2 then s.2 else cur.2) := h2
+        by_cases hi : i < cur.2
+        · exact t3 i h1 hi
+        · refine ⟨s, hs, by omega, ?_⟩
+          split at h2' <;> omega
+    · rcases List.mem_cons.mp m with rfl | m
+      · exact ht
+      · exact mergeGo_tight S rest s (tight_self hs)
+          (fun r' m' => hr r' (List.mem_cons_of_mem _ m')) sec m
+
+/-- every selected range that took part lies inside one section of its match -/
+theorem sections_cover (groups : List Nat) (index : Match) (r : Range)
+    (h : r ∈ selRanges groups index) : ∃ sec ∈ sections groups index, Within r sec := by
+  unfold sections
+  rw [← mergeSecs_eq_unite]
+  have hp : r ∈ (selRanges groups index).mergeSort rangeLe := (List.mergeSort_perm _ rangeLe).symm.subset h
+  have hsorted : Sorted ((selRanges groups index).mergeSort rangeLe) :=
+    List.pairwise_mergeSort rangeLe_trans rangeLe_total _
+  have hle : ∀ a b : Range, rangeLe a b = true → a.1 ≤ b.1 := by
+    intro a b; unfold rangeLe; simp; omega
+  cases hl : (selRanges groups index).mergeSort rangeLe with
+  | nil => rw [hl] at hp; simp at hp
+  | cons s rest =>
+    rw [hl] at hp hsorted
+    have hps := List.pairwise_cons.mp hsorted
+    apply mergeGo_cover rest s (fun r' m => hle _ _ (hps.1 r' m)) (hps.2.imp (fun {a b} h => hle a b h)) r
+    rcases List.mem_cons.mp hp with rfl | hp
+    · left; exact ⟨Int.le_refl _, Int.le_refl _⟩
+    · right; exact hp
+
+/-- every section is a union of selected ranges: nothing else is replaced -/
+theorem sections_tight (groups : List Nat) (index : Match) (sec : Range)
+    (h : sec ∈ sections groups index) : Tight (selRanges groups index) sec := by
+  unfold sections at h
+  rw [← mergeSecs_eq_unite] at h
+  have hmem : ∀ r ∈ (selRanges groups index).mergeSort rangeLe, r ∈ selRanges groups index :=
+    fun r m => (List.mergeSort_perm _ rangeLe).subset m
+  cases hl : (selRanges groups index).mergeSort rangeLe with
+  | nil => rw [hl] at h; simp [mergeSecs] at h
+  | cons s rest =>
+    rw [hl] at h hmem
+    exact mergeGo_tight _ rest s (tight_self (hmem s List.mem_cons_self))
+      (fun r' m' => hmem r' (List.mem_cons_of_mem _ m')) sec h
+
+
+/-! ### the masked value does not depend on the bytes inside the sections -/
+
+theorem segment_congr {v1 v2 : Bytes} {lo hi : Int} (h0 : 0 ≤ lo)
+    (h : ∀ i : Nat, lo ≤ (i : Int) → (i : Int) < hi → v1[i]? = v2[i]?) :
+    segment v1 lo hi = segment v2 lo hi := by
+  unfold segment
+  apply List.ext_getElem?
+  intro n
+  simp only [List.getElem?_take, List.getElem?_drop]
+  split
+  · apply h <;> omega
+  · rfl
+
+theorem drop_congr {v1 v2 : Bytes} {lo : Int} (h0 : 0 ≤ lo)
+    (h : ∀ i : Nat, lo ≤ (i : Int) → v1[i]? = v2[i]?) :
+    v1.drop lo.toNat = v2.drop lo.toNat := by
+  apply List.ext_getElem?
+  intro n
+  simp only [List.getElem?_drop]
+  apply h; omega
+
+theorem Chain.bounds {hi : Int} : ∀ {lo : Int} {l : List Range}, Chain lo l hi →
+    ∀ r ∈ l, lo ≤ r.1 ∧ r.1 ≤ r.2 ∧ r.2 ≤ hi
+  | _, [], _, r, m => by simp at m
+  | _, sec :: rest, ⟨h1, h2, h3⟩, r, m => by
+    rcases List.mem_cons.mp m with rfl | m
+    · exact ⟨h1, h2, Chain.le h3⟩
+    · have := Chain.bounds h3 r m
+      exact ⟨by omega, this.2.1, this.2.2⟩
+
+theorem replaceFrom_congr (m : MaskCfg) (v1 v2 : Bytes) (hi : Int) :
+    ∀ (secs : List Range) (lo : Int), 0 ≤ lo → Chain lo secs hi →
+    (∀ i : Nat, lo ≤ (i : Int) → (∀ sec ∈ secs, ¬ (sec.1 ≤ (i : Int) ∧ (i : Int) < sec.2)) → v1[i]? = v2[i]?) →
+    (∀ sec ∈ secs, replacement m (segment v1 sec.1 sec.2) = replacement m (segment v2 sec.1 sec.2)) →
+    replaceFrom m v1 lo secs = replaceFrom m v2 lo secs
+  | [], lo, h0, _, hout, _ => by
+    simp only [replaceFrom]
+    exact drop_congr h0 (fun i hi' => hout i hi' (by simp))
+  | sec :: rest, lo, h0, ⟨c1, c2, c3⟩, hout, hrep => by
+    simp only [replaceFrom]
+    have hb := Chain.bounds c3
+    congr 1
+    · congr 1
+      · apply segment_congr h0
+        intro i h1 h2
+        apply hout i h1
+        intro sec' m'
+        rcases List.mem_cons.mp m' with rfl | m'
+        · omega
+        · have := hb sec' m'; omega
+      · exact hrep sec List.mem_cons_self
+    · apply replaceFrom_congr m v1 v2 hi rest sec.2 (by omega) c3
+      · intro i h1 hn
+        apply hout i (by omega)
+        intro sec' m'
+        rcases List.mem_cons.mp m' with rfl | m'
+        · omega
+        · exact hn sec' m'
+      · intro sec' m'; exact hrep sec' (List.mem_cons_of_mem _ m')
+
+/-- all sections of a well-shaped answer, in order -/
+theorem allSections_chain {nsub : Nat} {len : Int} {groups : List Nat} (hg : groupsOk groups nsub = true) :
+    ∀ {idx : Matches} {lo : Int}, re2Shape nsub len lo idx = true → lo ≤ len → Chain lo (allSections groups idx) len
+  | [], _, _, hl => hl
+  | index :: idx, lo, hs, _ => by
+    unfold re2Shape at hs
+    cases hg0 : groupOf index 0 with
+    | none => rw [hg0] at hs; simp at hs
+    | some se =>
+      obtain ⟨s0, e0⟩ := se
+      rw [hg0] at hs
+      simp only [Bool.and_eq_true] at hs
+      obtain ⟨b1, _, b3, _⟩ := groupOk_of_shape hg0 hs.1
+      obtain ⟨_, hchain⟩ := sections_chain hg0 hs.1 hg
+      simp only [allSections, List.flatMap_cons]
+      exact Chain.append (Chain.mono_lo b1 hchain) (allSections_chain hg hs.2 b3)
+
+
+/-! ### the original loops, under the hypothesis the existing tests live in -/
+
+/-- group `g` took part in the match -/
+def Present (index : Match) (g : Nat) : Prop :=
+  ∃ s e, groupOf index g = some (s, e) ∧ ¬ (s < 0 ∨ e < 0)
+
+/-- the last listed group took part -/
+def LastPresent (gs : List Nat) (index : Match) : Prop :=
+  ∀ g, gs.getLast? = some g → Present index g
+
+theorem orig_groupLoop_inv (m : MaskCfg) (value : Bytes) (index : Match) (hi : Int) (hhi : hi ≤ value.length) :
+    ∀ (gs : List Nat) (st : Orig.LSt), (∀ g ∈ gs, (groupOf index g).isSome) → 0 ≤ st.prev →
+    Chain st.prev (selRanges gs index) hi →
+    ∃ st', Orig.groupLoop m value index gs st = .ok st' ∧ st.prev ≤ st'.prev ∧ st'.prev ≤ hi ∧
+      (∀ rest, st'.buf ++ replaceFrom m value st'.prev rest
+        = st.buf ++ replaceFrom m value st.prev (selRanges gs index ++ rest)) ∧
+      (gs = [] → st' = st) ∧ (gs ≠ [] → LastPresent gs index → st'.curFinish = st'.prev)
+  | [], st, _, _, c => ⟨st, rfl, Int.le_refl _, c, fun _ => rfl, fun _ => rfl, fun h => absurd rfl h⟩
+  | g :: gs, st, hsome, h0, c => by
+    have hg := hsome g List.mem_cons_self
+    have hsome' : ∀ g' ∈ gs, (groupOf index g').isSome := fun g' m' => hsome g' (List.mem_cons_of_mem _ m')
+    rw [selRanges_cons] at c
+    cases hgo : groupOf index g with
+    | none => rw [hgo] at hg; simp at hg
+    | some se =>
+      obtain ⟨s, e⟩ := se
+      have hgo' := hgo
+      unfold groupOf at hgo'
+      cases h1 : index[2 * g]? with
+      | none => simp [h1] at hgo'
+      | some s' =>
+        cases h2 : index[2 * g + 1]? with
+        | none => simp [h1, h2] at hgo'
+        | some e' =>
+          simp [h1, h2] at hgo'
+          obtain ⟨rfl, rfl⟩ := hgo'
+          have e1 : idx? index ((g * 2 : Nat) : Int) = .ok s' := idx_nat (by rw [Nat.mul_comm]; exact h1)
+          have e2 : idx? index ((g * 2 + 1 : Nat) : Int) = .ok e' := idx_nat (by rw [Nat.mul_comm]; exact h2)
+          rw [hgo] at c
+          by_cases hneg : s' < 0 ∨ e' < 0
+          · simp only [hneg, ↓reduceIte] at c
+            obtain ⟨st', r1, r2, r3, r4, r5, r6⟩ :=
+              orig_groupLoop_inv m value index hi hhi gs { st with curFinish := e' } hsome' h0 c
+            refine ⟨st', ?_, r2, r3, ?_, fun h => by simp at h, ?_⟩
+            · have : (decide (s' < 0) || decide (e' < 0)) = true := by simpa using hneg
+              unfold Orig.groupLoop
+              simp only [e1, e2, bind, Except.bind, this, ↓reduceIte]
+              exact r1
+            · intro rest
+              rw [selRanges_cons, hgo]
+              simp only [hneg, ↓reduceIte]
+              exact r4 rest
+            · intro _ hl
+              cases gs with
+              | nil =>
+                exfalso
+                obtain ⟨s2, e2', hp, hn⟩ := hl g (by simp)
+                rw [hgo] at hp
+                simp at hp
+                exact hn (by rw [← hp.1, ← hp.2]; exact hneg)
+              | cons g2 gs2 =>
+                apply r6 (by simp)
+                intro g' hg'
+                exact hl g' (by simpa [List.getLast?_cons_cons] using hg')
+          · simp only [hneg, ↓reduceIte] at c
+            obtain ⟨c1, c2, c3⟩ := c
+            have hs0 : 0 ≤ s' := Int.le_trans h0 c1
+            have he : e' ≤ value.length := Int.le_trans (Chain.le c3) hhi
+            have hse : s' ≤ value.length := Int.le_trans c2 he
+            obtain ⟨st', r1, r2, r3, r4, r5, r6⟩ :=
+              orig_groupLoop_inv m value index hi hhi gs
+                ⟨e', e', st.buf ++ segment value st.prev s' ++ replacement m (segment value s' e')⟩
+                hsome' (Int.le_trans hs0 c2) c3
+            refine ⟨st', ?_, ?_, r3, ?_, fun h => by simp at h, ?_⟩
+            · have : (decide (s' < 0) || decide (e' < 0)) = false := by simpa using hneg
+              unfold Orig.groupLoop
+              simp only [e1, e2, bind, Except.bind, this, Bool.false_eq_true, ↓reduceIte,
+                slice_ok h0 c1 hse, maskSection_ok m _ value hs0 c2 he]
+              exact r1
+            · exact Int.le_trans (Int.le_trans c1 c2) r2
+            · intro rest
+              rw [selRanges_cons, hgo]
+              simp only [hneg, ↓reduceIte]
+              rw [r4 rest]
+              simp [replaceFrom, List.append_assoc]
+            · intro _ hl
+              cases gs with
+              | nil => rw [r5 rfl]
+              | cons g2 gs2 =>
+                apply r6 (by simp)
+                intro g' hg'
+                exact hl g' (by simpa [List.getLast?_cons_cons] using hg')
+
+
+/-- the selected groups that took part, in the order they are listed, match after match, are
+    ascending and do not overlap -/
+def AscFrom (groups : List Nat) (len : Int) : Int → Matches → Prop
+  | lo, [] => lo ≤ len
+  | lo, index :: rest => ∃ mid, Chain lo (selRanges groups index) mid ∧ AscFrom groups len mid rest
+
+theorem AscFrom.le {groups : List Nat} {len : Int} : ∀ {idx : Matches} {lo : Int}, AscFrom groups len lo idx → lo ≤ len
+  | [], _, h => h
+  | _ :: _, _, ⟨_, c, h⟩ => Int.le_trans (Chain.le c) (AscFrom.le h)
+
+theorem orig_matchLoop_inv (m : MaskCfg) (value : Bytes) (hne : m.groups ≠ []) :
+    ∀ (idx : Matches) (st : Orig.LSt), (∀ index ∈ idx, ∀ g ∈ m.groups, (groupOf index g).isSome) →
+    0 ≤ st.prev → AscFrom m.groups value.length st.prev idx →
+    ∃ st', Orig.matchLoop m value idx st = .ok st' ∧ st.prev ≤ st'.prev ∧ st'.prev ≤ value.length ∧
+      (∀ rest, st'.buf ++ replaceFrom m value st'.prev rest
+        = st.buf ++ replaceFrom m value st.prev (idx.flatMap (selRanges m.groups) ++ rest)) ∧
+      (idx = [] → st' = st) ∧
+      (idx ≠ [] → (∀ index, idx.getLast? = some index → LastPresent m.groups index) → st'.curFinish = st'.prev)
+  | [], st, _, _, a => ⟨st, rfl, Int.le_refl _, a, fun _ => rfl, fun _ => rfl, fun h => absurd rfl h⟩
+  | index :: idx, st, hsome, h0, ⟨mid, c, a⟩ => by
+    have hmid : mid ≤ value.length := AscFrom.le a
+    obtain ⟨st1, r1, r2, r3, r4, _, r6⟩ := orig_groupLoop_inv m value index mid hmid m.groups st
+      (hsome index List.mem_cons_self) h0 c
+    have a' : AscFrom m.groups value.length st1.prev idx := by
+      cases idx with
+      | nil => exact Int.le_trans r3 hmid
+      | cons i2 idx2 =>
+        obtain ⟨mid2, c2, a2⟩ := a
+        exact ⟨mid2, Chain.mono_lo r3 c2, a2⟩
+    obtain ⟨st2, q1, q2, q3, q4, q5, q6⟩ := orig_matchLoop_inv m value hne idx st1
+      (fun i mi => hsome i (List.mem_cons_of_mem _ mi)) (Int.le_trans h0 r2) a'
+    refine ⟨st2, ?_, Int.le_trans r2 q2, q3, ?_, fun h => by simp at h, ?_⟩
+    · simp [Orig.matchLoop, r1, bind, Except.bind, q1]
+    · intro rest
+      rw [q4 rest, r4]
+      simp [List.append_assoc]
+    · intro _ hl
+      cases idx with
+      | nil =>
+        rw [q5 rfl]
+        exact r6 hne (hl index (by simp))
+      | cons i2 idx2 =>
+        apply q6 (by simp)
+        intro i' hi'
+        exact hl i' (by simpa [List.getLast?_cons_cons] using hi')
+
+theorem Chain.sorted {hi : Int} : ∀ {lo : Int} {l : List Range}, Chain lo l hi → Sorted l
+  | _, [], _ => List.Pairwise.nil
+  | _, sec :: rest, ⟨_, h2, h3⟩ => by
+    refine List.pairwise_cons.mpr ⟨?_, Chain.sorted h3⟩
+    intro r m
+    have := Chain.bounds h3 r m
+    unfold rangeLe; simp; omega
+
+theorem mergeGo_of_chain {hi : Int} : ∀ (rest : List Range) (cur : Range), Chain cur.2 rest hi →
+    mergeGo cur rest = cur :: rest
+  | [], _, _ => rfl
+  | s :: rest, cur, ⟨h1, _, h3⟩ => by
+    unfold mergeGo
+    have : ¬ s.1 < cur.2 := by omega
+    simp only [this, ↓reduceIte]
+    rw [mergeGo_of_chain rest s h3]
+
+/-- on ascending, non-overlapping ranges the sections are the ranges themselves -/
+theorem sections_of_chain {groups : List Nat} {index : Match} {lo hi : Int}
+    (c : Chain lo (selRanges groups index) hi) : sections groups index = selRanges groups index := by
+  unfold sections
+  rw [List.mergeSort_of_pairwise (Chain.sorted c), ← mergeSecs_eq_unite]
+  cases hl : selRanges groups index with
+  | nil => rfl
+  | cons s rest =>
+    rw [hl] at c
+    exact mergeGo_of_chain rest s c.2.2
+
+theorem allSections_of_asc {groups : List Nat} {len : Int} : ∀ {idx : Matches} {lo : Int},
+    AscFrom groups len lo idx → allSections groups idx = idx.flatMap (selRanges groups)
+  | [], _, _ => rfl
+  | index :: idx, _, ⟨_, c, a⟩ => by
+    simp only [allSections, List.flatMap_cons, sections_of_chain c]
+    congr 1
+    exact allSections_of_asc a
+
+/-- **the original `maskValue`** agrees with the spec when the selected groups are ascending and
+    non-overlapping in listing order and the last listed group of the last match took part -/
+theorem orig_maskValue_eq (m : MaskCfg) (value buf : Bytes) (idx : Matches)
+    (hne : m.groups ≠ []) (hidx : idx ≠ [])
+    (hsome : ∀ index ∈ idx, ∀ g ∈ m.groups, (groupOf index g).isSome)
+    (hasc : AscFrom m.groups value.length 0 idx)
+    (hlast : ∀ index, idx.getLast? = some index → LastPresent m.groups index) :
+    Orig.maskValue m idx value buf = .ok (maskedValue m idx value, true) := by
+  obtain ⟨st', r1, r2, r3, r4, _, r6⟩ := orig_matchLoop_inv m value hne idx ⟨0, 0, []⟩ hsome (Int.le_refl _) hasc
+  have hcf := r6 hidx hlast
+  have he : idx.isEmpty = false := by cases idx <;> simp_all
+  have := r4 []
+  simp only [List.append_nil, List.nil_append, replaceFrom] at this
+  unfold Orig.maskValue
+  simp [he, r1, bind, Except.bind, hcf, sliceFrom_ok r2 r3, pure, Except.pure, maskedValue,
+    allSections_of_asc hasc, this]
+
 end FileD.MaskLemmas
